@@ -399,6 +399,289 @@ theorem graph_index_gatherpath_correct (comps : List Comp) (shape : List Nat) (r
 example : useSlice [.full, .int (-2)] = false ∧
     graphIndex [.full, .int (-2)] [2, 3] = .ok [.pick [0, 1], .drop 1] := by decide
 
+/-- **Axis level, eager mode.** -/
+theorem eager_axis_refines_numpy_partial (c : Comp) (srcs : List Nat) (a : AxisMap)
+    (hb : c.basic = true)
+    (hD22 : ∀ lo hi st, c = .slice lo hi st → (st.val?).getD 1 < 0 →
+              ∀ x, lo.val? = some x → -(srcs.length : Int) ≤ x)
+    (h : eagerAxisSlicePath c srcs = .ok a) : numpyAxis c srcs = .ok a := by
+  cases c with
+  | full => simpa [eagerAxisSlicePath, numpyAxis] using h
+  | tScalar v => simp [Comp.basic] at hb
+  | tVec vs => simp [Comp.basic] at hb
+  | int i =>
+    simp only [eagerAxisSlicePath, scalar_as_slice] at h
+    simp only [numpyAxis]
+    by_cases hm1 : i = -1
+    · simp [hm1, single?, Functor.map, Except.map] at h
+    · simp only [hm1, if_false] at h
+      cases hn : normIdx srcs.length i with
+      | none => simp [hn, single?, Functor.map, Except.map] at h
+      | some k =>
+        simp only [hn] at h ⊢
+        cases hk : srcs[k]? with
+        | none => simp [hk, single?, Functor.map, Except.map] at h
+        | some s => simpa [hk, single?, Functor.map, Except.map] using h
+  | slice lo hi st =>
+    simp only [eagerAxisSlicePath] at h
+    by_cases hskip : lo = .none ∧ hi = .none ∧ st = .none
+    · simp only [hskip, and_self, if_true] at h
+      obtain ⟨rfl, rfl, rfl⟩ := hskip
+      have e : (Bnd.none).val? = none := rfl
+      simp only [numpyAxis, e, Option.getD]
+      rw [pySliceList_full]
+      exact h
+    · simp only [hskip, if_false] at h
+      simp only [numpyAxis]
+      by_cases hv : (st.val?).getD 1 = 0
+      · simp [hv] at h
+      · have hb0 : ((st.val?).getD 1 == 0) = false := by simpa using hv
+        simp only [hb0] at h ⊢
+        rw [slice_list_eager_eq_numpy_partial srcs _ _ _ hv
+          (fun hneg x hx => hD22 lo hi st rfl hneg x hx)] at h
+        exact h
+
+/-- **Whole expressions, eager mode.**  For every index expression of constant components (`:`,
+Python ints — which eager mode promotes to rank-0 tensors —, slices with constant bounds), any
+rank, any dimension sizes: if `Tensor.__getitem__` returns a tensor, NumPy returns the same
+tensor — given only the D22 hypothesis for negative steps.  All three paths of the code are
+covered: Identity (only `:`), single Gather (one int, no slice), Slice + `np.squeeze`. -/
+theorem eager_index_correct_partial (comps : List Comp) (shape : List Nat) (r : View)
+    (hbasic : ∀ c ∈ comps, c.basic = true)
+    (hD22 : ∀ (j d : Nat) (lo hi st : Bnd), comps[j]? = some (.slice lo hi st) → shape[j]? = some d →
+        (st.val?).getD 1 < 0 → ∀ x, lo.val? = some x → -(d : Int) ≤ x)
+    (h : eagerIndex comps shape = .ok r) : numpyIndex comps shape = .ok r := by
+  -- NumPy's guards never fire on constant components within rank
+  have hnumpy : comps.length ≤ shape.length → axiswise numpyAxis comps shape = .ok r →
+      numpyIndex comps shape = .ok r := by
+    intro hl hnp
+    unfold numpyIndex
+    rw [if_neg (by omega)]
+    have hv : comps.filter Comp.isVec = [] := filter_none _ _ (fun c hc => basic_not_vec c (hbasic c hc))
+    rw [hv, if_neg (by simp), needsTranspose_basic comps hbasic]
+    simpa using hnp
+  have hvecs : eVecsOf comps = [] :=
+    filter_zipIdx_none Comp.isVec comps 0 (fun c hc => basic_not_vec c (hbasic c hc))
+  unfold eagerIndex planEager at h
+  by_cases hlen : comps.length > shape.length
+  · rw [if_pos hlen] at h; simp [bind, Except.bind] at h
+  rw [if_neg hlen] at h
+  have hlen' : comps.length ≤ shape.length := by omega
+  rw [hvecs] at h
+  simp only [List.filterMap_nil, List.append_nil, List.isEmpty_nil, Bool.and_true] at h
+  -- kinds of basic components
+  have hkind : ∀ (c : Comp), c.basic = true → c.isEagerSliced = false → c.isEagerScalar = false →
+      c.kind = Kind.skip := by
+    intro c hb hs hsc
+    cases c with
+    | full => rfl
+    | int i => simp [Comp.isEagerScalar] at hsc
+    | tScalar v => simp [Comp.basic] at hb
+    | tVec v => simp [Comp.basic] at hb
+    | slice lo hi st =>
+      have : lo = .none ∧ hi = .none ∧ st = .none := by
+        simpa [Comp.isEagerSliced] using hs
+      obtain ⟨rfl, rfl, rfl⟩ := this
+      rfl
+  by_cases hempty : ((eSlicedOf comps).isEmpty && (eScalarsOf comps).isEmpty) = true
+  · -- Identity
+    rw [if_pos hempty] at h
+    simp only [Bool.and_eq_true, List.isEmpty_iff] at hempty
+    have hr : r = View.init shape := by
+      simpa [runPlan, List.foldlM, runOp, bind, Except.bind, pure, Except.pure] using h.symm
+    subst hr
+    refine hnumpy hlen' (axiswise_all_skip comps shape hlen' ?_)
+    intro c hc
+    obtain ⟨j, hj⟩ := List.getElem?_of_mem hc
+    exact hkind c (hbasic c hc)
+      (filter_zipIdx_nil_forall Comp.isEagerSliced comps 0 hempty.1 j c hj)
+      (filter_zipIdx_nil_forall Comp.isEagerScalar comps 0 hempty.2 j c hj)
+  rw [if_neg hempty] at h
+  by_cases hg : ((eSlicedOf comps).isEmpty && ((eScalarsOf comps).length == 1)) = true
+  · -- single Gather
+    rw [if_pos hg] at h
+    simp only [Bool.and_eq_true, List.isEmpty_iff, beq_iff_eq] at hg
+    obtain ⟨hsl, hone⟩ := hg
+    obtain ⟨c, j, hs⟩ : ∃ c j, eScalarsOf comps = [(c, j)] := by
+      cases hsc : eScalarsOf comps with
+      | nil => rw [hsc] at hone; simp at hone
+      | cons p rest =>
+        cases rest with
+        | nil => exact ⟨p.1, p.2, rfl⟩
+        | cons q rest' => rw [hsc] at hone; simp at hone
+    obtain ⟨_, hget, hothers⟩ := filter_zipIdx_singleton Comp.isEagerScalar comps 0 c j hs
+    simp only [Nat.sub_zero] at hget hothers
+    have hcs : c.isEagerScalar = true := by
+      have : (c, j) ∈ eScalarsOf comps := by rw [hs]; simp
+      simp only [eScalarsOf, List.mem_filter] at this
+      exact this.2
+    have hcb := hbasic c (List.mem_of_getElem? hget)
+    obtain ⟨i, rfl⟩ : ∃ i, c = .int i := by
+      cases c with
+      | int i => exact ⟨i, rfl⟩
+      | full => simp [Comp.isEagerScalar] at hcs
+      | tScalar v => simp [Comp.basic] at hcb
+      | tVec v => simp [Comp.basic] at hcb
+      | slice lo hi st => simp [Comp.isEagerScalar] at hcs
+    rw [hs] at h
+    simp only [List.map_cons, List.map_nil, Comp.scalarVal, runPlan, List.foldlM, runOp, bind, Except.bind,
+      pure, Except.pure] at h
+    have hmod : modifyPick j (gatherF i) (View.init shape) = .ok r := by
+      rw [← opGatherScalar_eq]
+      cases hgs : opGatherScalar j i (View.init shape) with
+      | error e => simp [hgs] at h
+      | ok v => simpa [hgs] using h
+    have hskip : ∀ (j' : Nat) (c' : Comp), j' ≠ j → comps[j']? = some c' → c'.kind = Kind.skip := by
+      intro j' c' hne hc'
+      exact hkind c' (hbasic c' (List.mem_of_getElem? hc'))
+        (filter_zipIdx_nil_forall Comp.isEagerSliced comps 0 hsl j' c' hc')
+        (hothers j' c' hne hc')
+    exact hnumpy hlen' (gather_axiswise i comps shape j r hlen' hget hskip hmod)
+  · -- Slice (+ np.squeeze)
+    rw [if_neg hg] at h
+    have hany : (!(eSlicedOf comps).isEmpty || !(eScalarsOf comps).isEmpty) = true := by
+      cases h1 : (eSlicedOf comps).isEmpty <;> cases h2 : (eScalarsOf comps).isEmpty <;> simp_all
+    rw [if_pos hany] at h
+    -- lookups
+    have gax : ∀ c j e, entryOfEager c j (shape.getD j 0) = some e → e.axis = j := by
+      intro c j e he
+      cases c with
+      | full => simp [entryOfEager] at he
+      | tVec v => simp [entryOfEager] at he
+      | int i => simp [entryOfEager] at he; rw [← he]
+      | tScalar i => simp [entryOfEager] at he; rw [← he]
+      | slice lo hi st =>
+        have he' : (if lo = .none ∧ hi = .none ∧ st = .none then none else
+            some (⟨j, (eagerBounds (shape.getD j 0) lo.val? hi.val? ((st.val?).getD 1)).1,
+              (eagerBounds (shape.getD j 0) lo.val? hi.val? ((st.val?).getD 1)).2,
+              (st.val?).getD 1⟩ : SliceEntry)) = some e := he
+        by_cases hsk : lo = .none ∧ hi = .none ∧ st = .none
+        · rw [if_pos hsk] at he'; simp at he'
+        · rw [if_neg hsk] at he'; simp at he'; rw [← he']
+    have hfind : ∀ (j : Nat), (eagerEntriesOf comps shape).find? (fun e => e.axis == j)
+        = (match comps[j]? with
+           | some c => (if c.isEagerSliced then entryOfEager c j (shape.getD j 0) else none).or
+                       (if c.isEagerScalar then entryOfEager c j (shape.getD j 0) else none)
+           | none => none) := by
+      intro j
+      simp only [eagerEntriesOf, List.filterMap_append, List.find?_append, eSlicedOf, eScalarsOf]
+      have e1 := find_entries_zipIdx_gen Comp.isEagerSliced
+        (fun c j => entryOfEager c j (shape.getD j 0)) gax comps 0 j
+      have e2 := find_entries_zipIdx_gen Comp.isEagerScalar
+        (fun c j => entryOfEager c j (shape.getD j 0)) gax comps 0 j
+      simp only [Nat.zero_le, if_true, Nat.sub_zero] at e1 e2
+      rw [e1, e2]
+      cases comps[j]? <;> rfl
+    have hE : ∀ (j : Nat) (c : Comp) (d : Nat), comps[j]? = some c → shape[j]? = some d →
+        (eagerEntriesOf comps shape).find? (fun e => e.axis == 0 + j) = entryOfEager c (0 + j) d := by
+      intro j c d hj hd
+      have hd' : shape.getD j 0 = d := by simp [List.getD, hd]
+      rw [Nat.zero_add, hfind j, hj]
+      simp only [hd']
+      have hb := hbasic c (List.mem_of_getElem? hj)
+      cases c with
+      | tScalar v => simp [Comp.basic] at hb
+      | tVec v => simp [Comp.basic] at hb
+      | full => rfl
+      | int i => rfl
+      | slice lo hi st =>
+        by_cases hsk : lo = .none ∧ hi = .none ∧ st = .none
+        · obtain ⟨rfl, rfl, rfl⟩ := hsk; rfl
+        · have h1 : (Comp.slice lo hi st).isEagerSliced = true := by simp [Comp.isEagerSliced, hsk]
+          have h2 : (Comp.slice lo hi st).isEagerScalar = false := rfl
+          simp only [h1, h2, if_true, Bool.false_eq_true, if_false, Option.or_none]
+    have hE' : ∀ j, comps.length ≤ j →
+        (eagerEntriesOf comps shape).find? (fun e => e.axis == 0 + j) = none := by
+      intro j hj
+      rw [Nat.zero_add, hfind j, List.getElem?_eq_none hj]
+    have hS : ∀ (j : Nat) (c : Comp), comps[j]? = some c →
+        ((eScalarsOf comps).map (fun p => p.2)).contains (0 + j) = c.isEagerScalar := by
+      intro j c hj
+      have := contains_zipIdx Comp.isEagerScalar comps 0 j
+      simp only [Nat.zero_le, if_true, Nat.sub_zero, hj] at this
+      simp only [eScalarsOf, Nat.zero_add]
+      exact this
+    have hS' : ∀ j, comps.length ≤ j →
+        ((eScalarsOf comps).map (fun p => p.2)).contains (0 + j) = false := by
+      intro j hj
+      have := contains_zipIdx Comp.isEagerScalar comps 0 j
+      simp only [Nat.zero_le, if_true, Nat.sub_zero, List.getElem?_eq_none hj] at this
+      simp only [eScalarsOf, Nat.zero_add]
+      exact this
+    -- run the plan
+    cases hsl : opSlice (eagerEntriesOf comps shape) (View.init shape) with
+    | error e =>
+      by_cases hsq : (eScalarsOf comps).isEmpty = true <;>
+        simp [hsq, runPlan, List.foldlM, runOp, hsl, bind, Except.bind] at h
+    | ok v1 =>
+      obtain ⟨hz, hv1⟩ := opSlice_ok _ _ _ hsl
+      -- every component's step is non-zero (else Slice would have failed)
+      have hstep : ∀ c ∈ comps, c.basic = true ∧
+          (∀ lo hi st, c = .slice lo hi st → ¬ (lo = .none ∧ hi = .none ∧ st = .none) →
+            (st.val?).getD 1 ≠ 0) := by
+        intro c hc
+        refine ⟨hbasic c hc, ?_⟩
+        intro lo hi st hcs hsk h0
+        subst hcs
+        obtain ⟨j, hj⟩ := List.getElem?_of_mem hc
+        have hjl : j < shape.length := by
+          have := List.getElem?_eq_some_iff.mp hj |>.1
+          omega
+        have hfd := hE j _ (shape[j]) hj (by simp [hjl])
+        have hent : entryOfEager (.slice lo hi st) (0 + j) shape[j]
+            = some ⟨0 + j, (eagerBounds shape[j] lo.val? hi.val? ((st.val?).getD 1)).1,
+                (eagerBounds shape[j] lo.val? hi.val? ((st.val?).getD 1)).2, (st.val?).getD 1⟩ := by
+          show (if _ then _ else _) = _
+          rw [if_neg hsk]
+        rw [hent] at hfd
+        exact hz _ (List.mem_of_find?_eq_some hfd) h0
+      have hgo : opSqueeze.go ((eScalarsOf comps).map (fun p => p.2)) 0
+          (opSlice.go (eagerEntriesOf comps shape) 0 (View.init shape)) = .ok r := by
+        by_cases hsq : (eScalarsOf comps).isEmpty = true
+        · have hSnil : (eScalarsOf comps).map (fun p => p.2) = [] := by
+            simp only [List.isEmpty_iff] at hsq; simp [hsq]
+          rw [hSnil, squeeze_go_nil, ← hv1]
+          simpa [hsq, runPlan, List.foldlM, runOp, hsl, bind, Except.bind, pure, Except.pure] using h
+        · have hsq' : (eScalarsOf comps).isEmpty = false := by simpa using hsq
+          cases hq : opSqueeze ((eScalarsOf comps).map (fun p => p.2)) v1 with
+          | error e =>
+            simp [hsq', runPlan, List.foldlM, runOp, hsl, hq, bind, Except.bind] at h
+          | ok v2 =>
+            have : v2 = r := by
+              simpa [hsq', runPlan, List.foldlM, runOp, hsl, hq, bind, Except.bind, pure, Except.pure] using h
+            subst this
+            have := opSqueeze_ok _ _ _ hq
+            rwa [hv1] at this
+      have hax := slice_squeeze_axiswise_gen (eagerEntriesOf comps shape)
+        ((eScalarsOf comps).map (fun p => p.2)) entryOfEager Comp.isEagerScalar eagerAxisSlicePath
+        (fun c => c.basic = true ∧ (∀ lo hi st, c = .slice lo hi st →
+            ¬ (lo = .none ∧ hi = .none ∧ st = .none) → (st.val?).getD 1 ≠ 0))
+        (by
+          intro c j d hP
+          obtain ⟨hb, hst⟩ := hP
+          cases c with
+          | tScalar v => simp [Comp.basic] at hb
+          | tVec v => simp [Comp.basic] at hb
+          | full => simp [eagerAxisSlicePath, axisAfter, entryOfEager, applyEntry, Comp.isEagerScalar]
+          | int i => simp [eagerAxisSlicePath, axisAfter, entryOfEager, applyEntry, Comp.isEagerScalar]
+          | slice lo hi st =>
+            by_cases hsk : lo = .none ∧ hi = .none ∧ st = .none
+            · simp [eagerAxisSlicePath, axisAfter, entryOfEager, applyEntry, Comp.isEagerScalar, hsk]
+            · have h0 := hst lo hi st rfl hsk
+              have hb0 : ((st.val?).getD 1 == 0) = false := by simpa using h0
+              simp [eagerAxisSlicePath, axisAfter, entryOfEager, applyEntry, Comp.isEagerScalar, hsk, hb0])
+        comps shape 0 r hlen' hstep hE hE' hS hS' hgo
+      refine hnumpy hlen' (axiswise_mono eagerAxisSlicePath numpyAxis comps shape r ?_ hax)
+      intro j c d a hc hd hg'
+      refine eager_axis_refines_numpy_partial c (List.range d) a (hbasic c (List.mem_of_getElem? hc)) ?_ hg'
+      intro lo hi st hcs hneg x hx
+      subst hcs
+      simp only [List.length_range]
+      exact hD22 j d lo hi st hc hd hneg x hx
+
+example : eagerIndex [.int (-2), .slice (.const 1) .none .none] [3, 4] = .ok [.drop 1, .pick [1, 2, 3]] := by
+  decide
+
 /-- Whole expressions, full statement: "if the translated graph returns a tensor, it is NumPy's".
 **Refuted** on the model of the unchanged converter by `A[i, 0]` (`i` a rank-0 tensor holding 1,
 `A : 2×3×4`): the plan gathers axis 0 (rank drops) and then gathers axis **1** of the reduced
